@@ -398,8 +398,45 @@ func init() {
 			}
 			if r.chance(1, 8) && len(body) > 0 {
 				full := body
-				body = body[:r.intn(len(body))]
+				cutAt := r.intn(len(body))
 				tag = "cut"
+				if formEnveloped(rc.form) {
+					// frame starts of the body as generated (lengths may lie; stop at the first that does)
+					var starts []int
+					for off := 0; off+5 <= len(body); {
+						starts = append(starts, off)
+						n := int(binary.BigEndian.Uint32(body[off+1 : off+5]))
+						if n < 0 || off+5+n > len(body) {
+							break
+						}
+						off += 5 + n
+					}
+					if len(starts) > 0 {
+						st := starts[r.intn(len(starts))]
+						switch r.intn(8) {
+						case 0, 1: // the prefix is complete, none of the announced bytes follows
+							if st+5 < len(body) {
+								cutAt = st + 5
+								tag = "cut-after-prefix"
+							}
+						case 2: // inside a prefix
+							if st+1+r.intn(4) < len(body) {
+								cutAt = st + 1 + r.intn(4)
+								tag = "cut-in-prefix"
+							}
+						case 3: // exactly between two frames
+							cutAt = st
+							tag = "cut-at-boundary"
+						case 4: // the last announced byte is missing
+							n := int(binary.BigEndian.Uint32(body[st+1 : st+5]))
+							if n > 0 && st+5+n <= len(body) {
+								cutAt = st + 5 + n - 1
+								tag = "cut-last-byte"
+							}
+						}
+					}
+				}
+				body = body[:cutAt]
 				if formEnveloped(rc.form) {
 					// recompute: only what survives the cut counts
 					hard = checkFrames(body) != ""
